@@ -139,18 +139,8 @@ def dataFrame (cfg : Cfg) (frameType : Nat) (st : RState) : Adv :=
     .err .readLimit (writeControl st opClose (formatClose 1009 [])).1
   else .ok frameType st
 
-/-- steps 6 and 7: read and process a control frame payload -/
-def controlFrame (cfg : Cfg) (frameType : Nat) (st : RState) : Adv :=
-  let payRes : Option (Bytes × RState) :=
-    if st.readRemaining > 0 then
-      match readN st st.readRemaining with
-      | none => none
-      | some (p, st) =>
-        some (if cfg.server then xorMask st.maskKey 0 p else p, { st with readRemaining := 0 })
-    else some ([], st)
-  match payRes with
-  | none => .err .eof { st with input := [], readRemaining := 0 }
-  | some (payload, st) =>
+/-- step 7: process a control frame payload (default pong, ping and close handlers) -/
+def processControl (frameType : Nat) (payload : Bytes) (st : RState) : Adv :=
   if frameType == opPong then
     .ok frameType { st with events := st.events ++ [.pong payload] }
   else if frameType == opPing then
@@ -168,6 +158,19 @@ def controlFrame (cfg : Cfg) (frameType : Nat) (st : RState) : Adv :=
     | rest =>
       let st := if rest.length == 1 then { st with devs := st.devs ++ [Dev.close1] } else st
       .err (.close 1005 []) (writeControl st opClose (formatClose 1005 [])).1
+
+/-- steps 6 and 7: read and process a control frame payload -/
+def controlFrame (cfg : Cfg) (frameType : Nat) (st : RState) : Adv :=
+  let payRes : Option (Bytes × RState) :=
+    if st.readRemaining > 0 then
+      match readN st st.readRemaining with
+      | none => none
+      | some (p, st) =>
+        some (if cfg.server then xorMask st.maskKey 0 p else p, { st with readRemaining := 0 })
+    else some ([], st)
+  match payRes with
+  | none => .err .eof { st with input := [], readRemaining := 0 }
+  | some (payload, st) => processControl frameType payload st
 
 /-- steps 3 to 7 -/
 def frameBody (cfg : Cfg) (h : Hdr) (st : RState) : Adv :=
